@@ -34,6 +34,7 @@ fn one_unit(u: Unit) -> Program {
         ret_err: None,
         probe_cells: false,
         pull_params: None,
+        pull_skip: 0,
     }
 }
 
@@ -85,6 +86,7 @@ fn gen_c06(r: &mut Rng, _t: Tier, _job: u64) -> Plan {
             v13: r.coin(),
             seed: r.next(),
             chain: 0,
+            big_hello: false,
         });
         p.writes = WriteSched::all();
         if r.coin() {
@@ -270,7 +272,85 @@ pub fn c07() -> Simple {
 // ------------------------------------------------------------------------------------------
 // C08 — parameters
 
-fn gen_c08(r: &mut Rng, _t: Tier, _job: u64) -> Plan {
+/// One parameter streamed in chunks of about 1 MiB up to a total of 60..70 MiB (more than the
+/// 64 MiB that the library itself reports as @@max_allowed_packet), another one inline: the
+/// execution must see exactly the bytes sent, however many there are.
+pub fn gen_streamed_volume(r: &mut Rng) -> Plan {
+    let total_mib = *r.pick(&[60usize, 63, 64, 65, 66, 70]);
+    let mut cmds = vec![Cmd {
+        seq: 0,
+        kind: CmdKind::Prepare(Blob::lit(b"insert into blobs values (?, ?)")),
+        act: Act::Prepare(PrepAct::Reply {
+            id: 11,
+            params: (0..2)
+                .map(|_| ColSpec {
+                    table: Blob::lit(b""),
+                    name: Blob::lit(b"?"),
+                    coltype: 0xfc,
+                    flags: 0,
+                })
+                .collect(),
+            cols: vec![],
+        }),
+    }];
+    let mut left = total_mib * 1024 * 1024 + r.usize_below(3);
+    while left > 0 {
+        let n = match r.below(8) {
+            0 => 0,
+            1 => 2 * 1024 * 1024,
+            2 => 1 + r.usize_below(5000),
+            _ => 1024 * 1024,
+        }
+        .min(left);
+        left -= n;
+        cmds.push(Cmd {
+            seq: 0,
+            kind: CmdKind::LongData {
+                stmt: 11,
+                param: 0,
+                data: Blob::Gen {
+                    len: n as u32,
+                    salt: r.next() as u32,
+                    ascii: false,
+                },
+            },
+            act: Act::None,
+        });
+    }
+    cmds.push(Cmd {
+        seq: 0,
+        kind: CmdKind::Execute {
+            stmt: 11,
+            flags: 0,
+            iters: 1,
+            block: ParamBlock {
+                bind: Some(vec![(0xfc, 0), (0x03, 0)]),
+                values: vec![PVal::Skip, PVal::Int(42)],
+                raw: None,
+                stale_types: None,
+            },
+        },
+        act: Act::Program(simple_ok_program()),
+    });
+    cmds.push(Cmd {
+        seq: 0,
+        kind: CmdKind::Ping,
+        act: Act::None,
+    });
+    let mut p = Plan::basic(cmds);
+    p.arrival = Arrival::upfront();
+    p.reads = ReadSched {
+        explicit: vec![],
+        cuts: vec![],
+        tail: Tail::Fixed(*r.pick(&[1_048_576u32, 4_000_003])),
+    };
+    p
+}
+
+fn gen_c08(r: &mut Rng, _t: Tier, job: u64) -> Plan {
+    if job % 40_000 == 7 {
+        return gen_streamed_volume(r);
+    }
     let np = *r.pick(&[0usize, 1, 1, 2, 3, 5, 7, 8, 9, 15, 16, 17, 40, 300]);
     let id = r.next() as u32;
     let mut cmds = vec![Cmd {
@@ -934,6 +1014,7 @@ fn gen_c13_plan(r: &mut Rng, kind: u16) -> Plan {
                     ret_err: None,
                     probe_cells: false,
                     pull_params: None,
+                    pull_skip: 0,
                 },
             ));
         }
@@ -959,6 +1040,7 @@ fn gen_c13_plan(r: &mut Rng, kind: u16) -> Plan {
                     ret_err: None,
                     probe_cells: false,
                     pull_params: None,
+                    pull_skip: 0,
                 },
             ));
         }
@@ -1042,7 +1124,7 @@ impl Check for C13 {
     }
     fn jobs(&self, tier: Tier) -> u64 {
         match tier {
-            Tier::Quick => 1_200_000,
+            Tier::Quick => 900_000,
             Tier::Thorough => 20_000_000,
         }
     }
@@ -1051,6 +1133,13 @@ impl Check for C13 {
             // errors reported inside the all-features conversation (TLS, pipelining, faults, ...)
             let plan = super::sink::gen_sink(rng, _tier, job);
             ctx.stats.bump("probe.kitchen_sink_runs", 1);
+            ctx.eval(&plan);
+            return;
+        }
+        if job % 100_000 == 99_999 {
+            // the error that follows a row of exactly k * (2^24-1) bytes left open by the shim
+            let plan = super::props3::gen_c04_error_after_open_giant_row(rng);
+            ctx.stats.bump("probe.error_after_open_giant_row", 1);
             ctx.eval(&plan);
             return;
         }
@@ -1186,6 +1275,7 @@ fn gen_c14(r: &mut Rng, _t: Tier, _job: u64) -> Plan {
             ret_err: None,
             probe_cells: false,
             pull_params: None,
+            pull_skip: 0,
         };
         if prog.end == End::Implicit {
             if let Some(Unit::Rows(ru)) = prog.units.last_mut() {
@@ -1278,9 +1368,79 @@ fn gen_c16_many_open(r: &mut Rng) -> Plan {
     p
 }
 
+/// A rebinding EXECUTE that spans several packets (an inline value of 16 MiB or more), answered
+/// by a shim that may not look at its parameters at all, followed by executions without types.
+fn gen_c16_giant_rebind(r: &mut Rng) -> Plan {
+    let prep = Cmd {
+        seq: 0,
+        kind: CmdKind::Prepare(Blob::lit(b"p")),
+        act: Act::Prepare(PrepAct::Reply {
+            id: 2,
+            params: (0..2)
+                .map(|_| ColSpec {
+                    table: Blob::lit(b""),
+                    name: Blob::lit(b"?"),
+                    coltype: 0xfd,
+                    flags: 0,
+                })
+                .collect(),
+            cols: vec![],
+        }),
+    };
+    let exec = |bind: Option<Vec<(u8, u8)>>, values: Vec<PVal>, pull: Option<u16>| {
+        let mut pg = simple_ok_program();
+        pg.pull_params = pull;
+        Cmd {
+            seq: 0,
+            kind: CmdKind::Execute {
+                stmt: 2,
+                flags: 0,
+                iters: 1,
+                block: ParamBlock {
+                    bind,
+                    values,
+                    raw: None,
+                    stale_types: None,
+                },
+            },
+            act: Act::Program(pg),
+        }
+    };
+    let giant = PVal::Bytes {
+        data: Blob::Gen {
+            len: (1u32 << 24) - 40 + r.below(80) as u32,
+            salt: r.next() as u32,
+            ascii: false,
+        },
+        form: 0,
+    };
+    let small = |r: &mut Rng| PVal::Bytes {
+        data: blob_bytes(r, 5),
+        form: 0,
+    };
+    let cmds = vec![
+        prep,
+        exec(Some(vec![(0x08, 0x80), (0x03, 0)]), vec![PVal::Int(-2), PVal::Int(5)], None),
+        exec(Some(vec![(0xfc, 0), (0x08, 0x80)]), vec![giant, PVal::Int(-2)], if r.coin() { Some(0) } else { None }),
+        exec(None, vec![small(r), PVal::Int(-3)], None),
+        exec(None, vec![small(r), PVal::Int(7)], None),
+    ];
+    let mut p = Plan::basic(cmds);
+    p.arrival = Arrival::upfront();
+    p.reads = ReadSched {
+        explicit: vec![],
+        cuts: vec![],
+        tail: Tail::Fixed(*r.pick(&[1_048_576u32, 3_000_001])),
+    };
+    p
+}
+
 fn gen_c16(r: &mut Rng, _t: Tier, job: u64) -> Plan {
     if job % 4_000 == 1_313 {
         return gen_c16_many_open(r);
+    }
+    if job % 30_000 == 2_929 {
+        return gen_c16_giant_rebind(r);
     }
     let ns = 2 + r.usize_below(3);
     let mut cmds = Vec::new();
@@ -1523,6 +1683,9 @@ fn gen_c17_giant(r: &mut Rng) -> Plan {
 fn gen_c17(r: &mut Rng, t: Tier, job: u64) -> Plan {
     if job < if t == Tier::Quick { 6 } else { 200 } {
         return gen_c17_giant(r);
+    }
+    if job % 50_000 == 49_000 {
+        return gen_streamed_volume(r);
     }
     let ns = 1 + r.usize_below(3);
     let mut cmds = Vec::new();
